@@ -30,9 +30,11 @@ import (
 
 // listReply is one answer of the pending-list endpoint.
 type listReply struct {
-	ids   []string
-	kind  string // "" ok, "err" transport error, "500", "garbage", "huge"
-	after string // serve this reply only once the response for this id has been uploaded
+	ids           []string
+	kind          string        // "" ok, "err" transport error, "500", "garbage", "huge"
+	after         string        // serve this reply only once the response for this id has been uploaded
+	afterAttempts string        // serve this reply only once three upload attempts for this id have been made
+	delay         time.Duration // the long poll takes this long (virtual time: everything else has gone quiet by then)
 }
 
 // fetchPlan says how the request endpoint answers for one request ID.
@@ -118,8 +120,19 @@ func resp(code int, hdr http.Header, body []byte, req *http.Request) *http.Respo
 		Header: hdr, Body: io.NopCloser(bytes.NewReader(body)), ContentLength: int64(len(body)), Request: req}
 }
 
+func bodyFor(id string) string {
+	if len(id) > 3 {
+		return ""
+	}
+	return strings.Repeat("<body-of-"+id+">", 3)
+}
+
 func requestFor(id string) string {
-	return fmt.Sprintf("GET /p/%s?q=1 HTTP/1.1\r\nHost: client.example\r\nX-Tok: %s\r\nAccept: */*\r\n\r\n", id, id)
+	b := bodyFor(id)
+	if b == "" {
+		return fmt.Sprintf("GET /p/%s?q=1 HTTP/1.1\r\nHost: client.example\r\nX-Tok: %s\r\nAccept: */*\r\n\r\n", id, id)
+	}
+	return fmt.Sprintf("POST /p/%s?q=1 HTTP/1.1\r\nHost: client.example\r\nX-Tok: %s\r\nAccept: */*\r\nContent-Length: %d\r\n\r\n%s", id, id, len(b), b)
 }
 
 // ---- the proxy as the agent's transport ----
@@ -162,8 +175,22 @@ func (w *world) list(r *http.Request) (*http.Response, error) {
 		return nil, r.Context().Err()
 	}
 	l := w.lists[i]
+	if l.delay > 0 {
+		vtime.Sleep(l.delay)
+	}
 	if l.after != "" {
 		vs.Wait("proxy: long poll until "+l.after+" is answered", unsafe.Pointer(w), func() bool { return w.uploadFor(l.after) != nil })
+	}
+	if l.afterAttempts != "" {
+		vs.Wait("proxy: long poll until the upload for "+l.afterAttempts+" has failed", unsafe.Pointer(w), func() bool {
+			n := 0
+			for _, u := range w.uploads {
+				if u.id == l.afterAttempts {
+					n++
+				}
+			}
+			return n >= 3
+		})
 	}
 	switch l.kind {
 	case "err":
